@@ -156,7 +156,7 @@ def sh_drop(sh, name):
 
 # ---------------------------------------------------------------- cases
 
-NAMESETS = [lambda i: "t%d" % i, lambda i: "T%02d" % i, lambda i: "abcdefghijklmnop"[i], lambda i: "sp_%d" % (i * 7 % 13)]
+NAMESETS = [lambda i: "t%d" % i, lambda i: "T%02d" % i, lambda i: "abcdefghijklmnop"[i], lambda i: "sp_%d" % (i * 7 % 17)]
 
 def gen(rng, tier):
     g = Gen(rng)
@@ -231,7 +231,7 @@ def gen(rng, tier):
             mode = rng.choice(["foreign", "foreign", "drop", "add"])
             s = bsh[pos]
             if mode == "foreign":
-                s2 = sh_rename(s, {victim: rng.choice(["zz", "A0", victim + "x", "m"])})
+                s2 = sh_rename(s, {victim: rng.choice(["zz", "A0", victim + "x", "mm"])})
             elif mode == "drop":
                 s2 = sh_drop(sh_unroot(s), victim)
                 if not isinstance(s2, list) or len(s2) < 2:
